@@ -72,3 +72,15 @@ func (p *Pegnet) IsReplayTransaction(tx *sql.Tx, entryHash *factom.Bytes32) (boo
 	// If there is any result, then we know the transaction has been executed before and thus a replay.
 	return rows.Next(), nil
 }
+
+// IsRecordedTransaction returns true if the entry hash already has a row in
+// the transaction history, i.e. an earlier copy of the entry was seen and is
+// pending, executed or rejected.
+func (p *Pegnet) IsRecordedTransaction(tx *sql.Tx, entryHash *factom.Bytes32) (bool, error) {
+	var n int
+	err := tx.QueryRow(`SELECT COUNT(*) FROM "pn_history_txbatch" WHERE "entry_hash" = ?;`, entryHash[:]).Scan(&n)
+	if err != nil {
+		return false, err
+	}
+	return n > 0, nil
+}
